@@ -144,11 +144,13 @@ var WordPool = []string{
 	"alpha", "beta", "gamma", "delta", "polish", "Polish", "Alpha", "paris", "Paris",
 	"Zulu", "Xray", "NASA", "4", "42", "正確", "馬", "ß", "ice cream", "Ice Cream", "don't", "x_y",
 	"été", "Été", "ñu", "a", "A", "b", "zz", "ǆemal", "ﬁn", "o'neil", "été été", "-", "q", "r", "s", "tt", "uu",
+	// title forms that sort AFTER the word in byte order, and short words whose concatenations collide
+	"ÿves", "Ÿves", "µm", "Μm", "ab", "ba",
 }
 
 // LowerPool: words that all change under title-casing and have pairwise
 // distinct title forms (the C04/C06 premise holds for any subset).
-var LowerPool = []string{"alpha", "beta", "gamma", "delta", "polish", "paris", "été", "ñu", "a", "b", "zz", "q", "r", "s", "tt", "uu", "ice cream", "don't", "x_y", "ǆemal"}
+var LowerPool = []string{"alpha", "beta", "gamma", "delta", "polish", "paris", "été", "ñu", "a", "b", "zz", "q", "r", "s", "tt", "uu", "ice cream", "don't", "x_y", "ǆemal", "ÿves", "µm", "ab"}
 
 // WordListOpts shapes list generation.
 type WordListOpts struct {
@@ -303,4 +305,53 @@ func Perm(t *rapid.T, n int, label string) []int {
 		idx = append(idx, rapid.IntRange(0, n-1).Draw(t, label+"_dup"))
 	}
 	return rapid.Permutation(idx).Draw(t, label)
+}
+
+// Siblings returns recipes that are different from c but easy to confuse with
+// it when fields are flattened into a key or a string: required sets merged
+// with / split at a delimiter, a boundary between two sets moved, characters
+// moved across the AllowChars / RequireSets / ExcludeChars boundaries around a
+// delimiter. They are ordinary recipes; evaluating them right after c in the
+// same process exposes state that is shared between recipes under a key that
+// does not determine the recipe.
+func Siblings(c oracle.CharSpec) []oracle.CharSpec {
+	var out []oracle.CharSpec
+	cp := func() oracle.CharSpec {
+		d := c
+		d.RequireSets = append([]string(nil), c.RequireSets...)
+		return d
+	}
+	rs := c.RequireSets
+	if len(rs) >= 2 {
+		for _, d := range []string{"", " ", ","} {
+			m := cp()
+			m.RequireSets = append([]string{rs[0] + d + rs[1]}, rs[2:]...)
+			out = append(out, m)
+		}
+		if len(rs[1]) > 0 {
+			// move the boundary between the first two sets
+			m := cp()
+			ch := oracle.Chars(rs[1])
+			m.RequireSets[0] = rs[0] + ch[0]
+			m.RequireSets[1] = strings.Join(ch[1:], "")
+			out = append(out, m)
+		}
+	}
+	if len(rs) >= 1 {
+		ch := oracle.Chars(rs[0])
+		if len(ch) >= 2 {
+			m := cp()
+			m.RequireSets = append([]string{ch[0], strings.Join(ch[1:], "")}, rs[1:]...)
+			out = append(out, m)
+		}
+		// "%s/%s/%s"-style keys: a required set swallowed by the neighbouring fields
+		for _, d := range []string{"/", ",", " "} {
+			m := cp()
+			m.AllowChars = c.AllowChars
+			m.RequireSets = rs[1:]
+			m.ExcludeChars = rs[0] + d + c.ExcludeChars
+			out = append(out, m)
+		}
+	}
+	return out
 }
